@@ -140,6 +140,7 @@ def LeafSupS : LeafS → Prop
   | .set (.lit x) => LitOk x
   | .set (.list l) => ∀ s ∈ l, SrcLit s
   | .set (.array l) => ∀ s ∈ l, SrcLit s
+  | .set (.map m) => ∀ q ∈ m, SrcLit q.2
   | .clear => True
   | .touch _ => True
   | .lrem _ => True
@@ -147,7 +148,6 @@ def LeafSupS : LeafS → Prop
   | .mput _ s => SrcLit s
   | .mrem _ => True
   | .sapp _ => True
-  | _ => False
 
 theorem srcOk_of (rd vars : Nat → Cell) (s : Src) (hl : SrcLit s) (hv : ∀ w ∈ s.vars, rd w = vars w ∧ w < nslots) :
     SrcOk rd vars s := by
@@ -216,7 +216,16 @@ theorem leaf_step (ds : DblSem) (rd : Nat → Cell) {h vars e g c} (hd : Held h 
       refine ⟨h', c', g', ?_, ?_⟩
       · simp only [leafOp, tmpPay]; exact r
       · exact st
-    | map m => exact absurd hsup (by simp [LeafSupS])
+    | map m =>
+      simp only [leafSize] at hf ⊢
+      have hsl : ∀ q ∈ m, SrcLit q.2 := hsup
+      have hok : ∀ q ∈ m, SrcOk rd vars q.2 := fun q hq =>
+        srcOk_of rd vars q.2 (hsl q hq) (fun w hw => hsrc w (by
+          simp only [LeafS.vars, ValS.vars, List.mem_flatMap]; exact ⟨q, hq, hw⟩))
+      obtain ⟨h', c', g', r, st⟩ := leaf_setMap ds rd hd m hok f hf
+      simp only [LeafS.eval, ValS.eval, Leaf.apply, Option.some.injEq] at hy
+      subst hy
+      exact ⟨h', c', g', r, st⟩
   | clear =>
     simp only [leafSize] at hf ⊢
     simp only [LeafS.eval, Leaf.apply, Option.some.injEq] at hy
